@@ -125,7 +125,9 @@ int count_open_fds(std::string *what) {
 
 // reports that were raised but never polled (the case crashed or was abandoned first) belong to
 // the case that just ended: they must not be attributed to the next one
-void san_sync() { g_san_seen = g_san_reports; }
+std::atomic<unsigned> g_buf_seq{0};
+int g_via_members = 0;
+void san_sync() { g_san_seen = g_san_reports; g_buf_seq = 0; }
 
 void Ctx::check_san(const char *where) {
     if (g_san_reports == g_san_seen) return;
